@@ -352,7 +352,10 @@ class C06conc(ConcProp):
             if not ok_h:
                 print(out_h[-3000:])
                 print("%s ERROR: the harness does not build against the repository's working tree" % tag)
-                return 2, dict(obligations=proof["obligations"], discharged=0, explanation="harness build failed"), None
+                pth = write_replay("C06conc", seed, 0, dict(property="C06", part="concurrent", kind="no-failing-input-found",
+                                                             broken="the correspondence harness does not compile against the repository's working tree", build_log=out_h[-4000:]))
+                return 1, dict(obligations=proof["obligations"], discharged=0, explanation="harness build failed"), \
+                    "VIOLATION property=C06 replay=%s no-failing-input-found" % pth
         r = random.Random(seed * 7919 + 17)
         if replay:
             rp = json.load(open(replay))
